@@ -2,7 +2,7 @@
    Statements only (copied from the lemma libraries); every proof is a bare
    `exact`; see the cited files in coq/proofs for the proofs. *)
 From Coq Require Import List NArith ZArith Bool Arith Sorting.Sorted Sorting.Permutation.
-From D2P Require Import Str Err Xml Fmt Bullets Merge Collector Walk Paths BulletsFacts SerialFacts PathsFacts Package MiscFacts.
+From D2P Require Import Str Err Xml Fmt Bullets Merge Collector Walk Paths BulletsFacts SerialFacts PathsFacts Package MiscFacts MergeFacts GridFacts TriviaFacts.
 Import ListNotations.
 
 (* the whole extraction of a part (merge, then walk) is EQUAL for a document and for the same document with every namespace URI renamed consistently and injectively - transitional vs strict (ISO) URIs are an instance *)
@@ -85,3 +85,45 @@ Theorem C18_unrelated_relationships :
   files_of_type (fs ++ [f]) ty = files_of_type fs ty.
 Proof. exact files_of_type_unrelated. Qed.
 Print Assumptions C18_unrelated_relationships.
+
+(* XML comments, processing instructions and whitespace between elements are invisible: the whole extraction of a part (merge, then walk) is the same - up to the positions recorded in Par.elem, which necessarily shift - for a parsed part and for the same part with every comment/PI removed, every tail and every non-text element's text dropped (outside equation content: math_clean; one prefix per namespace: wf_ptag) *)
+Theorem C18_comments_pis_whitespace :
+  forall pt v r,
+  wf_ptag pt (view r) = true -> math_clean (view r) = true ->
+  fr (extract v (view (rstrip_ax (rstrip_ws r)))) = fr (extract v (view r)).
+Proof. exact extract_trivia_raw. Qed.
+Print Assumptions C18_comments_pis_whitespace.
+
+(* comments and PIs alone, with no hypothesis other than their having no tail text inside an equation *)
+Theorem C18_comments_any_tree :
+  forall v t,
+  math_clean t = true -> fr (extract v t) = fr (extract v (strip_ax t)).
+Proof. exact extract_strip_ax_eq. Qed.
+Print Assumptions C18_comments_any_tree.
+
+(* merging commutes with comment removal for EVERY tree *)
+Theorem C18_merge_commutes_with_comment_removal :
+  forall v t,
+  merge_elems v (strip_ax t) = res_map strip_ax (merge_elems v t).
+Proof. exact merge_strip_ax_eq. Qed.
+Print Assumptions C18_merge_commutes_with_comment_removal.
+
+(* whitespace between elements: the walk's result is literally equal *)
+Theorem C18_whitespace_literal :
+  forall v t path,
+  math_clean t = true -> collect_from v path (strip_ws t) = collect_from v path t.
+Proof. exact collect_strip_ws. Qed.
+Print Assumptions C18_whitespace_literal.
+
+(* the equation clause of the property is necessary: tail text of a comment inside m:oMath is content *)
+Theorem C18_comment_in_equation_refuted :
+  exists v t, math_clean_ax t = false /\
+    fr (collect_from v [] t) <> fr (collect_from v [] (strip_ax t)).
+Proof. exact walk_strip_ax_counterexample. Qed.
+Print Assumptions C18_comment_in_equation_refuted.
+
+(* and so is one-prefix-per-namespace for whitespace (the text of x:t fused into w:t) *)
+Theorem C18_two_prefixes_refuted :
+  exists v t, math_clean t = true /\ extract v (strip_ws t) <> extract v t.
+Proof. exact extract_strip_ws_counterexample. Qed.
+Print Assumptions C18_two_prefixes_refuted.
